@@ -200,7 +200,7 @@ Section Dopri5.
       let '(h, stats, log) :=
         match p_first_step P with
         | Some h0 => (abs O h0 * posneg, stats, log)
-        | None => let '(h, call) := hinit O f x0 y0 posneg k1 5 hmax atol rtol in
+        | None => let '(h, call) := hinit O f x0 y0 posneg k1 5 (fmin O (abs O hmax) (abs O (xend - x0))) atol rtol in
                   (h, add_fev stats 1, call :: log)
         end in
       let '(cbs, fl, y) := cb cb0 x0 x0 y0 None in
